@@ -83,6 +83,40 @@ def _noop(*a, **k):
     return None
 
 
+# ------------------------------------------------------------------ recording what reaches CRSDecoder.decode
+
+CALLS = []
+
+
+def install_recorder():
+    """Replace the name `CRSDecoder` seen by the callers with a subclass that records the arguments of every
+    decode() call and then runs the real method: the (decoder params, ids, blocks) triple is the caller-side
+    selection that lean `immCodecCall` / `mutCodecCall` model."""
+    import allmydata.codec as codec_mod
+    import allmydata.immutable.downloader.node as node_mod
+    base = codec_mod.CRSDecoder
+    if getattr(base, "_verif_recorder", False):
+        return
+
+    class RecDecoder(base):
+        _verif_recorder = True
+
+        def decode(self, some_shares, their_shareids):
+            CALLS.append((self.data_size, self.required_shares, self.max_shares,
+                          [int(i) for i in their_shareids], [bytes(b) for b in some_shares]))
+            return base.decode(self, some_shares, their_shareids)
+
+    codec_mod.CRSDecoder = RecDecoder          # mutable/retrieve.py looks the class up as codec.CRSDecoder
+    node_mod.CRSDecoder = RecDecoder           # downloader/node.py imported the name
+
+
+def last_call():
+    if not CALLS:
+        return "none"
+    d, k, n, ids, shares = CALLS[-1]
+    return "%d,%d,%d|%s|%s" % (d, k, n, ids_s(ids), blocks_s(shares))
+
+
 # ------------------------------------------------------------------ implementation runners
 
 def impl_math(a, b):
@@ -192,6 +226,7 @@ def impl_imm(ctx, f, k, n, s, segnum, data, ids, valid):
     try:
         node._codec = CRSDecoder(); node._codec.set_params(s, k, n)
         blocks = dict((i, shares[i]) for i in ids)         # dict in the supplied order, as the fetcher hands it over
+        del CALLS[:]
         derr, dres = fire(DownloadNode._decode_blocks(node, segnum, blocks))
     except Exception as ex:
         derr, dres = exc_name(ex), None
@@ -200,7 +235,7 @@ def impl_imm(ctx, f, k, n, s, segnum, data, ids, valid):
             ctx.violation("immutable _decode_blocks of k distinct genuine blocks differs from the segment",
                           {"kind": "imm", "f": f, "k": k, "n": n, "s": s, "segnum": segnum, "data": hx(data), "ids": list(ids)},
                           "imm-roundtrip-%s" % ("tail" if is_tail else "full"))
-    return "setup=%s;calc=%s;enc=%s;dec=%s" % (setup, calc, show_enc(res), derr if derr else hx(dres[0]))
+    return "setup=%s;calc=%s;enc=%s;dec=%s;call=%s" % (setup, calc, show_enc(res), derr if derr else hx(dres[0]), last_call())
 
 
 class DataSrc:
@@ -257,6 +292,7 @@ def impl_mut(ctx, mdmf, seg0, dl, k, n, segnum, data, ids, valid):
     crypttext = aes.encrypt_data(aes.create_encryptor(key), bytes(data))
     try:
         bs = dict((i, (shares[i], salt)) for i in ids)
+        del CALLS[:]
         derr, dres = fire(retrieve.Retrieve._decode_blocks(ret, [bs], segnum))
     except Exception as ex:
         derr, dres = exc_name(ex), None
@@ -270,8 +306,20 @@ def impl_mut(ctx, mdmf, seg0, dl, k, n, segnum, data, ids, valid):
             perr, plain = fire(retrieve.Retrieve._decrypt_segment(ret, dres))
             if perr or bytes(plain) != bytes(data):
                 ctx.violation("mutable decode+decrypt differs from the published segment", case, sig + "-plain")
-    out = "pub=%s;ret=%s;enc=%s;dec=%s" % (pubs, rets, show_enc(shares_ids), derr if derr else hx(dres[0]))
+    out = "pub=%s;ret=%s;enc=%s;dec=%s;call=%s" % (pubs, rets, show_enc(shares_ids), derr if derr else hx(dres[0]), last_call())
     return out, crypttext
+
+
+def impl_matrix(k, n, ids):
+    """zfec's matrices read off the real encoder/decoder: encoding the unit vectors gives the rows of the n x k
+    encoding matrix; decoding unit vectors under share numbers `ids` gives the rows of the k x k decoding matrix;
+    inv = the decoder undoes the encoder on those rows."""
+    import zfec
+    unit = [bytes(1 if t == j else 0 for t in range(k)) for j in range(k)]
+    enc = [bytes(b) for b in zfec.Encoder(k, n).encode(list(unit))]
+    dec = [bytes(b) for b in zfec.Decoder(k, n).decode(list(unit), list(ids))]
+    back = [bytes(b) for b in zfec.Decoder(k, n).decode([enc[i] for i in ids], list(ids))]
+    return "enc=%s;dec=%s;inv=%s" % (blocks_s(enc), blocks_s(dec), "T" if back == unit else "F")
 
 
 def impl_zdec(k, n, blocks, ids):
@@ -503,6 +551,7 @@ def run(ctx):
     common.setup_impl_path()
     import allmydata.util.cputhreadpool as ctp
     ctp._DISABLED = True            # defer_to_thread runs inline: the Deferreds fire synchronously
+    install_recorder()
     rng = ctx.rng
 
     if ctx.replay:
@@ -515,6 +564,10 @@ def run(ctx):
             do_imm(ctx, b, c["f"], c["k"], c["n"], c["s"], c["segnum"], un(c["data"]), c["ids"], valid=c.get("valid", True))
         elif c["kind"] == "mut":
             do_mut(ctx, b, c["mdmf"], c["seg0"], c["dl"], c["k"], c["n"], c["segnum"], un(c["data"]), c["ids"], valid=c.get("valid", True))
+        elif c["kind"] == "matrix":
+            b.add("matrix %d %d %s" % (c["k"], c["n"], ids_s(c["ids"])), impl_matrix(c["k"], c["n"], c["ids"]), c, False)
+        elif c["kind"] == "mask":
+            b.add("mask %d %d" % (c["n"], c["m"]), ids_s([i for i in range(c["n"]) if (c["m"] >> i) & 1]), c, False)
         b.flush("replayed case")
         return
 
@@ -579,4 +632,24 @@ def run(ctx):
         b.add("zdec %d %d %s %s" % (k, n, blocks_s(blocks), ids_s(ids)), impl_zdec(k, n, blocks, ids),
               {"kind": "zdec", "k": k, "n": n, "blocks": [hx(x) for x in blocks], "ids": ids}, False)
     b.flush("zfec.Decoder.decode on arbitrary blocks vs rs256.dec")
+
+    # 7. zfec's encoding / decoding matrices (coefficient level) and the subset-mask helper
+    b = Batch(ctx)
+    for n in range(1, 6):                       # the family proved in Lean (LemmasRS): every subset, N <= 5
+        for m in range(1, 2 ** n):
+            ids = [i for i in range(n) if (m >> i) & 1]
+            b.add("mask %d %d" % (n, m), ids_s(ids), {"kind": "mask", "n": n, "m": m}, False)
+            b.add("matrix %d %d %s" % (len(ids), n, ids_s(ids)), impl_matrix(len(ids), n, ids),
+                  {"kind": "matrix", "k": len(ids), "n": n, "ids": ids}, len(ids) < n)
+    for _ in range(ctx.budget(25, 300)):
+        k, n = pick_kn(rng)
+        if n > 40:
+            n = rng.randrange(1, 41); k = rng.randrange(1, n + 1)
+        ids = rng.sample(range(n), k)
+        out = impl_matrix(k, n, ids)
+        if not out.endswith("inv=T"):
+            ctx.violation("zfec decoder does not invert the encoder's rows for this id set",
+                          {"kind": "matrix", "k": k, "n": n, "ids": ids}, "matrix-not-inverse")
+        b.add("matrix %d %d %s" % (k, n, ids_s(ids)), out, {"kind": "matrix", "k": k, "n": n, "ids": ids}, k < n)
+    b.flush("zfec encoding/decoding matrices vs encMatrix/decMatrix; idsOfMask")
     ctx.note("zfec MDS is an assumption: sampled, not proved (see ASSUMPTIONS)")
